@@ -1362,6 +1362,7 @@ func parseCertificate(in *certificate) (*Certificate, error) {
 				if len(constraints.Excluded) > 0 && e.Critical {
 					return out, UnhandledCriticalExtension{}
 				}
+				out.PermittedDNSDomainsCritical = e.Critical
 
 				for _, subtree := range constraints.Permitted {
 					if len(subtree.Name) == 0 {
